@@ -365,7 +365,7 @@ def cacg_fit_instance(lead, N, D, with_saliency, cov_norm='eigenvalue', floor=1e
 
 
 # ----------------------------------------------------------------------------- alternation of E and M steps
-def alternation_instance(kind, iterations, aligner=False, from_model=False, K=2):
+def alternation_instance(kind, iterations, aligner=False, from_model=False, K=2, prop='C08'):
     """fit() with recording stubs for the M-step and the E-step: call sequence and data flow."""
     from pb_bss.distribution import cacgmm, cwmm, gmm, vmfmm
     from pb_bss.distribution import mixture_model_utils as mmu
@@ -499,7 +499,7 @@ def alternation_instance(kind, iterations, aligner=False, from_model=False, K=2)
 
     name = '%s-it%d%s%s%s' % (kind, iterations, '-aligner' if aligner else '', '-from-model' if from_model else '', '-K3' if K == 3 else '')
     func = {'cacgmm': 'cacgmm:CACGMMTrainer.fit', 'cwmm': 'cwmm:CWMMTrainer.fit', 'gmm': 'gmm:GMMTrainer.fit', 'vmfmm': 'vmfmm:VMFMMTrainer.fit'}[kind]
-    return Instance('C08', DN + func, name, make, call, ensures, patches=patches, crosscheck=False, native_n=1, frame=False)
+    return Instance(prop, DN + func, name, make, call, ensures, patches=patches, crosscheck=False, native_n=1, frame=False)
 
 
 def instances(tier):
